@@ -62,6 +62,7 @@ def legal_moves(c):
 
 
 def run(ctx):
+    si_objects = []
     drv = common.LeanDriver()
     inithist.hist_stream(ctx, drv, ctx.scale(150, 1500))
     per = ctx.scale(100, 500)
@@ -131,7 +132,10 @@ def run(ctx):
             reqs.append(dict(op="c10", legal=legal_moves(c), tmin=c["tmin"], hists=[full["history"][v] for v in sub], statuses=sts,
                              queries=[]))
             metas.append((rep, full, plain, impl_ans, sub, sub_impl))
+            si_objects.append((rep, obj, nodes, sts, full["history"]))
     generated_model(ctx, reqs, metas)
+    import gensi
+    gensi.run_stream(ctx, si_objects)     # call SEQUENCES on the object vs the generated cache state machine (Gen/InvestState.lean)
     resps = drv.batch(reqs)
     for i, (rep, full, plain, impl_ans, sub, sub_impl) in enumerate(metas):
         r, rsub = resps[2 * i], resps[2 * i + 1]
